@@ -13,7 +13,7 @@ CONSTANTS MaxDepth,
 
 Wrapper   == {"lfb", "ploads", "cloads"}          \* torch.storage._load_from_bytes, pickle.loads, _pickle.loads
 Container == {"bare", "legacy", "zip"}
-Inner     == {"allowed", "sink", "dangerous", "mlonly", "sinkinst", "dotted", "cross", "oddname"}   \* oddname: an allow-listed MODULE with a name no pickler writes but the GLOBAL opcodes may carry (braces, blanks, non-ASCII): not allow-listed, so refused - with the unsafe-file error   \* cross: the MODULE of one addition with the NAME of another (verif_sink / loads): the pair was never added   \* dotted: a protocol-4 qualified name whose FIRST component is allow-listed (collections / OrderedDict.fromkeys): the pair (module, name) is not   \* sinkinst: hand-assembled protocol-0 INST payload    \* mlonly: standard-library classes the static check rates LIKELY_SAFE
+Inner     == {"allowed", "sink", "dangerous", "mlonly", "sinkinst", "dotted", "cross", "oddname", "extcold", "extwarm"}   \* ext*: the global is named by an extension code (EXT1; the application registered the code with copyreg) - extwarm: an unmediated load before the activation has already resolved that code once   \* oddname: an allow-listed MODULE with a name no pickler writes but the GLOBAL opcodes may carry (braces, blanks, non-ASCII): not allow-listed, so refused - with the unsafe-file error   \* cross: the MODULE of one addition with the NAME of another (verif_sink / loads): the pair was never added   \* dotted: a protocol-4 qualified name whose FIRST component is allow-listed (collections / OrderedDict.fromkeys): the pair (module, name) is not   \* sinkinst: hand-assembled protocol-0 INST payload    \* mlonly: standard-library classes the static check rates LIKELY_SAFE
 Entry     == {"load", "loads", "cload", "cloads"}
 AddSet    == {"none", "loaders", "loaders+other"}
 \* what happened in the same activation before the probed load: nothing, or a load that named an allow-listed global of a
@@ -33,7 +33,9 @@ Init == /\ \E d \in 0..MaxDepth : chain \in [1..d -> Wrapper \X Container]
         /\ \A i \in DOMAIN chain : Fits(chain[i][1], chain[i][2])
         /\ inner \in Inner /\ entry \in Entry /\ adds \in AddSet
         /\ prelude \in (IF Len(chain) <= 1 THEN Prelude ELSE {"none"})
-        /\ layer \in (IF entry = "load" THEN Layer ELSE {"ml"})       \* the extra layers only sit on pickle.load
+        \* the extra layers only sit on pickle.load; an extension-code payload is only put before the environment ALONE (the
+        \* static check stacked on top refuses the EXT opcodes it cannot decompile before the environment is asked)
+        /\ layer \in (IF entry = "load" /\ inner \notin {"extcold", "extwarm"} THEN Layer ELSE {"ml"})
 Next == UNCHANGED vars
 Spec == Init /\ [][Next]_vars
 
